@@ -31,9 +31,11 @@ def registry(run):
         raise CheckError("gcc -E failed on datasourceregistry.c: " + p.stderr[-1000:])
     txt = p.stdout
     m1 = re.search(r"snoopy_datasourceregistry_names\s*\[\s*\]\s*=\s*\{(.*?)\}\s*;", txt, re.S)
-    m2 = re.search(r"snoopy_datasourceregistry_ptrs\s*\[\s*\]\s*\)\s*\([^)]*\)\s*=\s*\{(.*?)\}\s*;", txt, re.S)
+    # declared with the function type spelled out, or through a typedef of it
+    m2 = re.search(r"snoopy_datasourceregistry_ptrs\s*\[\s*\]\s*(?:\)\s*\([^)]*\)\s*)?=\s*\{(.*?)\}\s*;", txt, re.S)
     if not (m1 and m2):
-        raise CheckError("data source registry arrays not found")
+        run.notes.append("translator: the data source registry arrays were not recognised in datasourceregistry.c (no entry can be bound)")
+        return []
     names = [c_unescape(x).decode() for x in re.findall(STR, m1.group(1))]
     ptrs = [x.strip() for x in m2.group(1).split(",") if x.strip()]
     if names and names[-1] == "":
@@ -855,6 +857,20 @@ def tr_ds(run):
         for c in calls:
             if c not in ext and c not in ("snprintf", "free", "malloc", "__errno_location") and c not in tr.wrappers:
                 ext.append(c)
+        # file-local functions of the same file (static helpers the body was split into) stand for the calls they make
+        local = tr.ast(rel)
+        changed = True
+        while changed:
+            changed = False
+            for c in list(ext):
+                if c in local and c != sym:
+                    ext.remove(c)
+                    hc, _ = ast_calls_and_formats(local[c])
+                    for x in hc:
+                        x = tr.wrappers.get(x, x)
+                        if x not in ext and x != c and x not in ("snprintf", "free", "malloc", "__errno_location"):
+                            ext.append(x)
+                    changed = True
         # helpers contribute their own external calls
         for c in list(ext):
             if c in tr.helpers:
